@@ -67,8 +67,81 @@ COMMENT_TAILS = [
 ]
 
 
+# ---------------------------------------------------------------- identifier spelling (Unicode)
+# Non-ASCII identifiers: 2-, 3- and 4-byte letters; upper-case non-ASCII first letters (exported by Go's rule
+# unicode.IsUpper), title-case and caseless first letters (never exported), digits / underscores anywhere,
+# camel-case and abbreviation boundaries next to multi-byte letters, a name whose lower case has another length.
+UNI_FUNC_NAMES = ["Café", "CaféAll", "Déploy", "Señal", "Build世界", "Go𐐨", "B_é", "N2é3", "HTMLé", "CaféÉtoile",   # ... é is no capital
+                  "Émettre", "Ärger", "Ωmega", "Дом", "X𝒜", "BuildÜber", "HTMLÉdit", "ÉCOLEBuild", "Ǆungla", "İstanbul",
+                  "Σ", "ÉB", "Été2_x", "AÉ", "AéB"]
+UNI_LOWER_NAMES = ["été", "世界", "élan", "ǅemal", "_Émile", "ñu", "émettre", "ωmega", "ſtart"]
+UNI_NS_NAMES = ["Dépôt", "Señor", "Über", "Ärzte", "Ωps", "Web世", "ÉT"]
+UNI_LOWER_NS = ["世", "élite"]
+UNI_METHOD_NAMES = ["Démarrer", "Façade", "Émettre", "Ölen", "Run世", "ÉCrire", "Д"]
+UNI_LOWER_METHODS = ["日本", "écrire"]
+UNI_PARAM_NAMES = ["größe", "名", "é", "Ünï", "x世"]
+UNI_ALIASES = ["démo", "Über-kurz", "Étape", "世界"]
+
+_UNI = {}        # string -> {"exported", "lower", "safe"}: Go's own answers (harness/docview), set by the check
+
+
+def set_unicode_table(infos):
+    for i in infos:
+        _UNI[i["name"]] = i
+
+
+def all_pool_names():
+    return sorted(set(UNI_FUNC_NAMES + UNI_LOWER_NAMES + UNI_NS_NAMES + UNI_LOWER_NS + UNI_METHOD_NAMES + UNI_LOWER_METHODS + UNI_ALIASES +
+                      ["x" + n for n in UNI_NS_NAMES]))
+
+
+def is_ascii(s):
+    return all(ord(c) < 128 for c in s)
+
+
 def exported(n):
-    return n[:1].isupper()
+    """ast.IsExported: Go's answer for non-ASCII names, A-Z for ASCII ones"""
+    if n in _UNI:
+        return _UNI[n]["exported"]
+    assert is_ascii(n), "no Unicode information for %r" % n
+    return "A" <= n[:1] <= "Z"
+
+
+def go_lower(s):
+    """strings.ToLower (rune by rune, so ':'-separated parts can be looked up separately)"""
+    if is_ascii(s):
+        return s.lower()
+    if s in _UNI:
+        return _UNI[s]["lower"]
+    return ":".join(_UNI[p]["lower"] if p in _UNI else ascii_lower_checked(p) for p in s.split(":"))
+
+
+def ascii_lower_checked(p):
+    assert is_ascii(p), "no Unicode information for %r" % p
+    return p.lower()
+
+
+def model_safe(s):
+    """inside the fragment in which the ASCII model (Model/Classify.v lower / is_upper / equal_fold) is Go"""
+    return is_ascii(s) or (s in _UNI and _UNI[s]["safe"])
+
+
+def ascii_upper(s):
+    return "".join(c.upper() if ord(c) < 128 else c for c in s)
+
+
+def ascii_lower(s):
+    return "".join(c.lower() if ord(c) < 128 else c for c in s)
+
+
+def package_identifiers(pkg):
+    ids = [f["name"] for f in pkg["funcs"]] + [t["name"] for t in pkg["types"]]
+    for v in pkg["vars"]:
+        for sp in v["specs"]:
+            for x in sp["values"]:
+                if "map" in x:
+                    ids += [k for k, _ in x["map"]]
+    return ids
 
 
 # ---------------------------------------------------------------- generation
@@ -82,9 +155,9 @@ def gen_comment(rng, name):
     if r < 0.45:
         first = name + " " + tail
     elif r < 0.55:
-        first = name.upper() + " " + tail
+        first = ascii_upper(name) + " " + tail
     elif r < 0.65:
-        first = name.lower() + " " + tail
+        first = ascii_lower(name) + " " + tail
     elif r < 0.72:
         first = name + ": " + tail
     elif r < 0.78:
@@ -99,13 +172,16 @@ def gen_comment(rng, name):
     return {"style": style, "text": first}
 
 
+_UNI_PARAMS = [False]
+
+
 def gen_group_names(rng, used, k, allow_blank=True):
     out = []
     for _ in range(k):
         if allow_blank and rng.random() < 0.15:
             out.append("_")
         else:
-            n = rng.choice([p for p in PARAM_NAMES if p not in used])
+            n = rng.choice([p for p in PARAM_NAMES + (UNI_PARAM_NAMES * 2 if _UNI_PARAMS[0] else []) if p not in used])
             used.add(n)
             out.append(n)
     return out
@@ -204,19 +280,26 @@ def on_generic(pkg, f):
     return bool(f["recv"]) and any(t.get("tparams") for t in pkg["types"] if t["name"] == f["recv"][0])
 
 
-def gen_package(rng, size=None, simple=False):
-    """simple: a few valid targets over string/int/bool only (base of the separate finding streams)"""
+def gen_package(rng, size=None, simple=False, unicode=None):
+    """simple: a few valid targets over string/int/bool only (base of the separate finding streams);
+    unicode: draw identifiers from the non-ASCII pools too (None: one package in four)"""
+    if unicode is None:
+        unicode = rng.choice([False] * 6 + [True, "safe"]) if not simple else False
+    # "safe": only spellings on which the ASCII model is Go (no non-ASCII capitals; see model_safe)
+    keep = (lambda n: model_safe(n)) if unicode == "safe" else (lambda n: True)
+    uni = (lambda pool, extra: pool + [n for n in extra if keep(n)] * 3) if unicode else (lambda pool, extra: pool)
+    _UNI_PARAMS[0] = bool(unicode)
     nfiles = 1 if simple else rng.choice([1, 1, 2, 2, 3])
     size = size or rng.choice([2, 4, 6, 8, 10, 14])
     pkg = {"nfiles": nfiles, "pkgdoc": None, "types": [], "funcs": [], "vars": [], "helpers": []}
     taken = set()          # package-level identifiers, lower-cased (no case-insensitive collisions at all)
 
     def take(pool):
-        c = [n for n in pool if n.lower() not in taken]
+        c = [n for n in pool if go_lower(n) not in taken]
         if not c:
             return None
         n = rng.choice(c)
-        taken.add(n.lower())
+        taken.add(go_lower(n))
         return n
 
     for n in ("default", "aliases", "local", "ctx", "main", "init", "probe", "mg", "alt", "conf", "duration", "context"):
@@ -228,16 +311,22 @@ def gen_package(rng, size=None, simple=False):
         gid = 0
         for _ in range(ntypes):
             kind = rng.choice(["ns"] * 10 + ["fake"] * 3 + ["ns-unexported"] * 3 + ["ns-generic"] * 2 + ["struct", "struct", "int", "chain", "alias-ns"])
-            nm = take(NS_NAMES)
-            if nm is None:
-                break
-            if kind == "ns-unexported":
-                taken.discard(nm.lower())
-                nm = nm[0].lower() + nm[1:] + "ns"
-                if nm.lower() in taken:
-                    continue
-                taken.add(nm.lower())
+            if kind == "ns-unexported" and unicode and rng.random() < 0.5:
+                nm = take([n for n in UNI_LOWER_NS if keep(n)])
                 kind = "ns"
+                if nm is None:
+                    continue
+            else:
+                nm = take(uni(NS_NAMES, UNI_NS_NAMES))
+                if nm is None:
+                    break
+                if kind == "ns-unexported":
+                    taken.discard(go_lower(nm))
+                    nm = (nm[0].lower() + nm[1:] + "ns") if is_ascii(nm) else ("x" + nm)
+                    if go_lower(nm) in taken or (not is_ascii(nm) and nm not in _UNI) or not keep(nm):
+                        continue
+                    taken.add(go_lower(nm))
+                    kind = "ns"
             if kind == "chain" and not [t for t in pkg["types"] if t["kind"] == "ns" and not t.get("tparams")]:
                 kind = "struct"
             t = {"name": nm, "kind": kind, "file": fileof(), "group": None}
@@ -261,9 +350,9 @@ def gen_package(rng, size=None, simple=False):
         methodable = [t for t in pkg["types"] if t["kind"] not in ("alias-ns",)]
         if methodable and defect != "generic" and rng.random() < 0.4:
             t = rng.choice(methodable)
-            pool = LOWER_METHODS if defect == "unexported" else METHOD_NAMES
-            have = {f["name"].lower() for f in pkg["funcs"] if f["recv"] and f["recv"][0] == t["name"]}
-            c = [n for n in pool if n.lower() not in have]
+            pool = uni(LOWER_METHODS, UNI_LOWER_METHODS) if defect == "unexported" else uni(METHOD_NAMES, UNI_METHOD_NAMES)
+            have = {go_lower(f["name"]) for f in pkg["funcs"] if f["recv"] and f["recv"][0] == t["name"]}
+            c = [n for n in pool if go_lower(n) not in have]
             if not c:
                 continue
             recv = [t["name"], rng.random() < 0.4, rng.choice(["", "r", "_"])]
@@ -271,7 +360,7 @@ def gen_package(rng, size=None, simple=False):
             if any(n == recv[2] for g in f["params"] for n in g["names"]):
                 recv[2] = ""
         else:
-            nm = take(LOWER_NAMES if defect == "unexported" else FUNC_NAMES)
+            nm = take(uni(LOWER_NAMES, UNI_LOWER_NAMES) if defect == "unexported" else uni(FUNC_NAMES, UNI_FUNC_NAMES))
             if nm is None:
                 continue
             f = gen_func(rng, nm, None, defect)
@@ -307,10 +396,10 @@ def gen_package(rng, size=None, simple=False):
             twin = None
             if not cand["recv"] and nss:
                 t = rng.choice(nss)
-                if not [f for f in pkg["funcs"] if f["recv"] and f["recv"][0] == t["name"] and f["name"].lower() == cand["name"].lower()]:
+                if not [f for f in pkg["funcs"] if f["recv"] and f["recv"][0] == t["name"] and go_lower(f["name"]) == go_lower(cand["name"])]:
                     twin = gen_func(rng, cand["name"], [t["name"], rng.random() < 0.4, ""], None)
-            elif cand["recv"] and cand["name"].lower() not in taken:
-                taken.add(cand["name"].lower())
+            elif cand["recv"] and go_lower(cand["name"]) not in taken:
+                taken.add(go_lower(cand["name"]))
                 twin = gen_func(rng, cand["name"], None, None)
             if twin is not None:
                 twin["file"] = fileof()
@@ -343,7 +432,7 @@ def gen_package(rng, size=None, simple=False):
     # aliases
     if refable and rng.random() < 0.4:
         kvs = []
-        for a in rng.sample(["al1", "b2", "zz", "Short", "x-y"], rng.choice([1, 2, 3])):
+        for a in rng.sample(["al1", "b2", "zz", "Short", "x-y"] + ([n for n in UNI_ALIASES if keep(n)] if unicode else []), rng.choice([1, 2, 3])):
             kvs.append([a, ref_of(rng.choice(refable))])
         pkg["vars"].append({"file": fileof(), "paren": False, "specs": [{"names": ["Aliases"], "values": [{"map": kvs}]}]})
     # harmless helper identifiers
@@ -355,6 +444,23 @@ def gen_package(rng, size=None, simple=False):
 
 
 # ---------------------------------------------------------------- the separate streams
+def gen_unicode(rng, safe=False):
+    """a package with non-ASCII identifiers; at least one exported function whose first camel-case word ends
+    in a multi-byte letter"""
+    pkg = gen_package(rng, unicode="safe" if safe else True)
+    must = ["Café", "CaféAll", "B_é", "Go𐐨", "Build世界"] + ([] if safe else ["CaféÉtoile", "AéB"])
+    if not [f for f in pkg["funcs"] if f["name"] in must and oracle_valid(pkg, f)]:
+        have = {go_lower(f["name"]) for f in pkg["funcs"] if not f["recv"]} | {go_lower(t["name"]) for t in pkg["types"]} | \
+            {go_lower(h["name"]) for h in pkg["helpers"]}
+        c = [n for n in must if go_lower(n) not in have]
+        if c:
+            _UNI_PARAMS[0] = True
+            f = gen_func(rng, rng.choice(c), None, None)
+            f["file"] = 0
+            pkg["funcs"].append(f)
+    return pkg
+
+
 def gen_default_shape(rng, shape):
     """packages whose Default declaration shares a var declaration with multi-name specs"""
     pkg = gen_package(rng, size=3, simple=True)
